@@ -83,8 +83,13 @@ TableStep ==
        \* results were thrown away while still needed
        /\ bad' = IF gen[E.model][E.gen] = "purged" THEN bad \cup {"reload-of-purged-generation"} ELSE bad
        /\ UNCHANGED <<mainpc, gi, nextLink, running, gen, wpc, got, sendq, recvq, writes, writing, pending>>
+    \* PurgeGeneration of one model, whoever calls it and whenever: the generation must have been written and
+    \* all links leaving it applied (otherwise its results are discarded while still needed)
     \/ /\ Is("purge")
-       /\ UNCHANGED <<vars, pending>>
+       /\ bad' = bad \cup (IF writes[E.gen] = 0 THEN {"purged-before-written"} ELSE {})
+                      \cup (IF \E k \in LinksFrom(E.gen) : k >= nextLink THEN {"purged-before-links-applied"} ELSE {})
+       /\ gen' = [gen EXCEPT ![E.model][E.gen] = "purged"]
+       /\ UNCHANGED <<mainpc, gi, nextLink, running, wpc, got, sendq, recvq, writes, writing, pending>>
 
 TraceNext == \/ (Plain /\ Adv /\ UNCHANGED pending)
              \/ (ChanStep /\ Adv)
